@@ -46,6 +46,38 @@ theorem C04_open_modes (c : Bytes) :
     openContent .append (some c) = c ∧ openContent .append none = [] ∧
     (∀ pre, openContent .truncate pre = []) := ⟨rfl, rfl, fun _ => rfl⟩
 
+
+/-- Several handles and failing encoders. For every history of appends through any number of
+`FileAppender`s on the same path, foreign `O_APPEND` writes between them, further appenders being
+built, restarts, and encoder failures that happen before anything was written: after every single
+operation the file is the plain concatenation, in call order, of what open left, the whole
+acknowledged records and the foreign appends — nothing acknowledged or foreign is overwritten or
+cut. (The model gives every write the kernel's `O_APPEND` placement; it is claimed faithful for
+several handles in append mode only.) -/
+theorem C04_multi_trace_eq_spec (m : OpenMode) (pre : Option Bytes) (ops : List MOp)
+    (hv : validOps 1 ops = true) (hnt : ∀ op ∈ ops, op.torn = false) :
+    Handles.trace m (Handles.init m pre) ops = Spec.expectedTraceM m pre ops :=
+  Handles.trace_eq_fileTraceM m ops (Handles.init m pre) (by intro b hb; simpa [Handles.init] using hb) hv hnt
+
+/-- the same statement without the restriction on failing encoders … -/
+def C04_multi_trace_statement : Prop :=
+  ∀ (m : OpenMode) (pre : Option Bytes) (ops : List MOp), validOps 1 ops = true →
+    Handles.trace m (Handles.init m pre) ops = Spec.expectedTraceM m pre ops
+
+/-- … is false of the code as it is (finding `C04/seq-encoder-error-torn`): an encoder that fails
+after its first slice leaves that slice in the buffer, and the next record of the appender carries
+it into the file: `[1]` of the failed record `[1][2]` ends up in front of `[3]`. -/
+theorem C04_multi_trace_statement_false : ¬ C04_multi_trace_statement := by
+  intro h
+  have := h .append none [.append 0 [[1], [2]] (some 1), .append 0 [[3]] none] (by decide)
+  revert this
+  decide
+
+/-- what the file is after the witness history: the torn slice glued in front of the next record -/
+theorem C04_encoder_error_tears (m : OpenMode) :
+    Handles.trace m (Handles.init m none) [.append 0 [[1], [2]] (some 1), .append 0 [[3]] none] = [[], [1, 3]] := by
+  cases m <;> decide
+
 /-- Every state any scheduler can reach from the start of `progs` (the per-thread lists of
 appends) satisfies:
 * lock free ⇒ nothing is buffered and the file is `initial ++` the committed records, whole, in
@@ -136,6 +168,13 @@ theorem C04_quiescent_all_done (m : OpenMode) (pre : Option Bytes) (progs : List
   simpa [CState.logOf, hl] using hp2
 
 /-! ### non-vacuity (tests on samples, not proofs of the property) -/
+
+/-- two appenders on one path and a foreign writer in between: everything is kept, in call order -/
+example :
+    Handles.trace .append (Handles.init .append (some [0]))
+      [.append 0 [[1]] none, .build, .append 0 [[2]] none, .foreign [7, 7], .append 1 [[3]] none, .append 0 [[4]] none]
+      = [[0, 1], [0, 1], [0, 1, 2], [0, 1, 2, 7, 7], [0, 1, 2, 7, 7, 3], [0, 1, 2, 7, 7, 3, 4]] := by
+  decide
 
 /-- every branch of the spill rule is reachable: fill exactly, spill, write-through -/
 example : (append (build .append (some [1, 2])) [List.replicate 1000 7, List.replicate 24 8, [9]]).disk.length = 1027 := by
